@@ -26,7 +26,7 @@ import (
 	"github.com/refraction-networking/uquic/internal/wire"
 )
 
-func c15e3RaceRound(v c15e3Variant, round int) (returned int) {
+func c15e3RaceRound(v c15e3Variant, round int) (returned int, stuck bool) {
 	var mu sync.Mutex
 	var frames []wire.Frame
 	rtt := utils.NewRTTStats()
@@ -133,13 +133,17 @@ func c15e3RaceRound(v c15e3Variant, round int) (returned int) {
 		select {
 		case <-done:
 		case <-time.After(30 * time.Second):
-			panic(fmt.Sprintf("c15e3 race pass %s: calls are still blocked 30 s after CloseWithError and context cancellation", v.Name))
+			stuck = true // the blocked goroutines are abandoned
 		}
 	}
 	mu.Lock()
 	defer mu.Unlock()
 	_ = frames
-	return nret
+	return nret, stuck
+}
+
+func c15e3RaceStuck(v c15e3Variant) string {
+	return fmt.Sprintf("%s (free-running goroutines): calls are still blocked 30 s after CloseWithError and the cancellation of every context", v.Name)
 }
 
 func TestVerifC15E3Race(t *testing.T) {
@@ -155,8 +159,12 @@ func TestVerifC15E3Race(t *testing.T) {
 			for vi, v := range c15e3Variants {
 				explore.MarkCurrent(e, "e3-race-pass", c15e3Replay{Variant: vi})
 				for r := 0; r < rounds && !e.Expired(); r++ {
-					n := c15e3RaceRound(v, r)
+					n, stuck := c15e3RaceRound(v, r)
 					rep.Evaluations++
+					if stuck {
+						rep.Violations = append(rep.Violations, explore.Violation{Key: "e3:blocked-after-close", What: c15e3RaceStuck(v), Replay: explore.JSON(c15e3Replay{Variant: vi})})
+						break
+					}
 					oc[fmt.Sprintf("%s: %d callers returned before release", v.Name, n)] = true
 				}
 			}
@@ -176,7 +184,9 @@ func TestVerifC15E3Race(t *testing.T) {
 				t.Fatal(err)
 			}
 			for r := 0; r < 3000; r++ {
-				c15e3RaceRound(c15e3Variants[rp.Variant], r)
+				if _, stuck := c15e3RaceRound(c15e3Variants[rp.Variant], r); stuck {
+					return &explore.Violation{Key: "e3:blocked-after-close", What: c15e3RaceStuck(c15e3Variants[rp.Variant])}
+				}
 			}
 			return nil
 		},
